@@ -614,3 +614,11 @@ seed('c12-n-update-exact-unchanged-shortcut', 'C12', [(PDFH, "            const 
 seed('c03-lbtrrt-refuses-resume', 'C03', [(LBTC, "    if (pdef_->getStartStateCount() > 1)", "    if (nn_->size() > 1)")], 'R03r')
 seed('c03-rrt-refusal-not-one', 'C03', [(RRTC, "    if (nn_->size() == 0)\n    {\n        OMPL_ERROR(\"%s: There are no valid initial states!\"", "    if (nn_->size() != 1)\n    {\n        OMPL_ERROR(\"%s: There are no valid initial states!\"")], 'R03r')
 seed('c03-n-rrt-refusal-lt-one', 'C03', [(RRTC, "    if (nn_->size() == 0)\n    {\n        OMPL_ERROR(\"%s: There are no valid initial states!\"", "    if (nn_->size() < 1)\n    {\n        OMPL_ERROR(\"%s: There are no valid initial states!\"")], None)
+BIESTC = 'src/ompl/geometric/planners/est/src/BiEST.cpp'
+CRRT = 'src/ompl/control/planners/rrt/src/RRT.cpp'
+seed('c01-rrt-path-assembled-leaf-first', 'C01', [(RRTC, "        for (int i = mpath.size() - 1; i >= 0; --i)\n            path->append(mpath[i]->state);", "        for (std::size_t i = 0; i < mpath.size(); ++i)\n            path->append(mpath[i]->state);")], 'R01w')
+seed('c01-biest-goal-half-root-first', 'C01', [(BIESTC, "                    for (auto &i : mpath2)\n                        path->append(i->state);", "                    for (int i = mpath2.size() - 1; i >= 0; --i)\n                        path->append(mpath2[i]->state);")], 'R01w')
+seed('c01-prm-solution-not-reversed', 'C01', [(PRMC, "    p->append(stateProperty_[start]);\n    p->reverse();\n\n    return p;", "    p->append(stateProperty_[start]);\n\n    return p;")], 'R01w')
+seed('c01-n-rrt-path-reverse-iterator', 'C01', [(RRTC, "        for (int i = mpath.size() - 1; i >= 0; --i)\n            path->append(mpath[i]->state);", "        for (auto it = mpath.rbegin(); it != mpath.rend(); ++it)\n            path->append((*it)->state);")], None)
+seed('c01-n-rrt-list-reversed-then-forward', 'C01', [(RRTC, "        for (int i = mpath.size() - 1; i >= 0; --i)\n            path->append(mpath[i]->state);", "        std::reverse(mpath.begin(), mpath.end());\n        for (auto &m : mpath)\n            path->append(m->state);")], None)
+seed('c02-rrt-path-assembled-leaf-first', 'C02', [(CRRT, "        for (int i = mpath.size() - 1; i >= 0; --i)\n            if (mpath[i]->parent)", "        for (std::size_t i = 0; i < mpath.size(); ++i)\n            if (mpath[i]->parent)")], 'R02k')
